@@ -309,6 +309,9 @@ func (x *Unit) frameGoals(st *State) (goals []frameGoal, ok bool) {
 		gg, ww := g, want
 		if kv, isMap := x.u.mapKV[g.Sort]; isMap {
 			refKeyed := k == "chanClosed" || k == "chanSent" || k == "timerDeadline" || k == "lockHeld" || k == "onceDone"
+			if gd := x.eng.ghostDecls[k]; gd != nil && gd.refKeyed {
+				refKeyed = true
+			}
 			goals = append(goals, frameGoal{key: "ghost " + k, idxSort: kv[0], at: func(kq T) T {
 				eq := Eq(Select(x.u.MapVal(gg.T), kq), Select(x.u.MapVal(ww.T), kq))
 				if refKeyed {
